@@ -138,7 +138,9 @@ def main():
             shutil.copytree(os.path.join(repo.root, "xandikos"), os.path.join(tmp, "xandikos"),
                             ignore=shutil.ignore_patterns("__pycache__", "tests"))
             write_mutant(repo.root, mod.path, parts, m, tmp)
-            env = dict(os.environ, VERIF_REPO=tmp, PYVC_PROCS=str(max(1, 16 // args.jobs)), PYVC_JSON="1")
+            # a mutant is killed by the first obligation that is not proved: small solver budgets are enough
+            env = dict(os.environ, VERIF_REPO=tmp, PYVC_PROCS=str(max(1, 16 // args.jobs)), PYVC_JSON="1",
+                       PYVC_ABS_MS=os.environ.get("PYVC_MUT_ABS_MS", "8000"), PYVC_Z3_MS="3000", PYVC_CVC5_S="5", PYVC_FAILFAST="1")
             t0 = time.time()
             out = subprocess.run(["python3-vt", "-m", "pyvc.cli_dev"] + verify, cwd=ROOT, env=env,
                                  capture_output=True, text=True, timeout=1800)
